@@ -432,7 +432,7 @@ func (env *Env) fieldByIndex(v Val, idx int) Val {
 			return term(e.mkSub(env.st, stt, idx, v.T), SRef, ptrMarker{types.NewPointer(ft)})
 		}
 		h, fs := e.d.FieldHeap(stt, idx)
-		return term(sel(env.heapGet(h), v.T), fs, ft)
+		return env.typed(term(sel(env.heapGet(h), v.T), fs, ft))
 	case *types.Struct:
 		si := e.d.StructOf(v.Typ)
 		ft := u.Field(idx).Type()
@@ -448,6 +448,27 @@ func (env *Env) fieldByIndex(v Val, idx int) Val {
 // ptrMarker marks an interior-struct reference produced by selecting a struct-typed field through a pointer:
 // as a value it stands for the struct (materialised on demand), for further selection it behaves as a pointer.
 type ptrMarker struct{ *types.Pointer }
+
+// typed adds the type invariants of a value read from memory inside a contract expression
+// (slice header well-formedness, byte-string facts, unsigned ranges). Skipped under binders.
+func (env *Env) typed(v Val) Val {
+	if v.K != KTerm || env.st == nil || hasBound(v.T) {
+		return v
+	}
+	switch v.S {
+	case SSlice:
+		env.e.fact(env.st, "slice:"+v.T, fmt.Sprintf("(and (<= 0 (soff %s)) (<= 0 (slen %s)) (<= (slen %s) (scap %s)) (=> (= (sarr %s) rnil) (= (scap %s) 0)))", v.T, v.T, v.T, v.T, v.T, v.T))
+	case SBytes:
+		env.e.bytesFacts(env.st, v.T)
+	case SInt:
+		if v.Typ != nil {
+			if mx, ok := uintMax(v.Typ); ok {
+				env.e.fact(env.st, "urange:"+v.T, fmt.Sprintf("(and (<= 0 %s) (<= %s %s))", v.T, v.T, mx))
+			}
+		}
+	}
+	return v
+}
 
 func (env *Env) materialize(v Val) Val {
 	if pm, ok := v.Typ.(ptrMarker); ok {
@@ -475,13 +496,16 @@ func (env *Env) index(v, i Val) Val {
 			return term(e.mkERef(env.st, et, app("sarr", v.T), idx), SRef, ptrMarker{types.NewPointer(et)})
 		}
 		es := e.d.SortOf(et)
-		return term(sel(sel(env.heapGet(e.d.ElemHeapT(et)), app("sarr", v.T)), idx), es, et)
+		return env.typed(term(sel(sel(env.heapGet(e.d.ElemHeapT(et)), app("sarr", v.T)), idx), es, et))
 	case SRef:
 		if v.Typ != nil {
 			if mt, ok := v.Typ.Underlying().(*types.Map); ok {
 				vs := e.d.SortOf(mt.Elem())
 				_, val, _ := e.d.MapHeaps(e.mapKeySort(mt), vs)
-				return term(sel(sel(env.heapGet(val), v.T), e.mapKey(mt, i)), vs, mt.Elem())
+				dom, _, _ := e.d.MapHeaps(e.mapKeySort(mt), vs)
+				kt := e.mapKey(mt, i)
+				present := and(not(eq(v.T, "rnil")), sel(sel(env.heapGet(dom), v.T), kt))
+				return term(fmt.Sprintf("(ite %s %s %s)", present, sel(sel(env.heapGet(val), v.T), kt), e.d.Zero(vs, mt.Elem())), vs, mt.Elem())
 			}
 			if pt, ok := v.Typ.Underlying().(*types.Pointer); ok {
 				if at, ok := pt.Elem().Underlying().(*types.Array); ok {
